@@ -67,14 +67,44 @@ func (b *Builder) DrawInlineImageRaw(dict pdf.Dict, data []byte) {
 	// PDF 2.0 has the L entry to make the extent of the data explicit.
 	_, hasL := dict["L"]
 	_, hasLength := dict["Length"]
+
+	// The stream keeps private copies, so that the caller can go on using
+	// (and changing) the dictionary and the data slice.
+	own := make(pdf.Dict, len(dict)+1)
+	for key, val := range dict {
+		own[key] = cloneNative(val)
+	}
 	if b.version >= pdf.V2_0 && !hasL && !hasLength && len(data) > 0 {
-		withL := make(pdf.Dict, len(dict)+1)
-		for key, val := range dict {
-			withL[key] = val
-		}
-		withL["L"] = pdf.Integer(len(data))
-		dict = withL
+		own["L"] = pdf.Integer(len(data))
 	}
 
-	b.emit(content.OpInlineImage, dict, pdf.String(data))
+	b.emit(content.OpInlineImage, own, cloneString(pdf.String(data)))
+}
+
+// cloneNative returns a deep copy of the arrays, dictionaries and strings
+// of a value; all other values are immutable and are returned as they are.
+func cloneNative(obj pdf.Object) pdf.Object {
+	switch x := obj.(type) {
+	case pdf.String:
+		return cloneString(x)
+	case pdf.Array:
+		if x == nil {
+			return x
+		}
+		res := make(pdf.Array, len(x))
+		for i, elem := range x {
+			res[i] = cloneNative(elem)
+		}
+		return res
+	case pdf.Dict:
+		if x == nil {
+			return x
+		}
+		res := make(pdf.Dict, len(x))
+		for key, val := range x {
+			res[key] = cloneNative(val)
+		}
+		return res
+	}
+	return obj
 }
